@@ -113,7 +113,13 @@ def base_affine(name):
     return Affine(a, b, Real("c0"), d, e, Real("f0"))
 
 
-def mk_family(base, n, crs="epsg:3857"):
+TOL = F(1e-8)  # the near-integer tolerance of the grid-compatibility test
+
+
+def mk_family(base, n, crs="epsg:3857", perturb=False):
+    """GeoBoxes on one grid: whole-pixel shifts of a base.  perturb: members after the first are
+    off the grid by less than the accepted tolerance (what float round-off produces): they still
+    count as on the grid and the results must be those of the exact shifts"""
     import odc.geo.geobox as gbx
 
     A = base_affine(base)
@@ -122,7 +128,14 @@ def mk_family(base, n, crs="epsg:3857"):
         tx, ty_ = Int(f"tx{k}"), Int(f"ty{k}")
         ny, nx = Int(f"ny{k}", 1), Int(f"nx{k}", 1)
         ref = gbx.GeoBox((ny, nx), A, crs)
-        out.append((ref.translate_pix(tx, ty_), tx, ty_, ny, nx))
+        if perturb and k > 0:
+            # offsets are multiples of 2^-40 pixel below the tolerance (keeps the floor terms integer)
+            ex_ = Int(f"ex{k}", -10000, 10000)
+            ey_ = Int(f"ey{k}", -10000, 10000) if perturb != "x" else 0
+            dx, dy = ex_ / 2**40, ey_ / 2**40
+            out.append((ref.translate_pix(tx + dx, ty_ + dy), tx, ty_, ny, nx))
+        else:
+            out.append((ref.translate_pix(tx, ty_), tx, ty_, ny, nx))
     return out
 
 
@@ -137,8 +150,8 @@ def rel_origin(r, g0, t0):
     return ex(px) + t0[0], ex(py) + t0[1]
 
 
-def h_union(base):
-    (g0, tx0, ty0, ny0, nx0), (g1, tx1, ty1, ny1, nx1) = mk_family(base, 2)
+def h_union(base, perturb=False):
+    (g0, tx0, ty0, ny0, nx0), (g1, tx1, ty1, ny1, nx1) = mk_family(base, 2, perturb=perturb)
     u = g0 | g1
     ox, oy = rel_origin(u, g0, (tx0, ty0))
     L, T = m_min(tx0, tx1), m_min(ty0, ty1)
@@ -148,11 +161,16 @@ def h_union(base):
     prove("union_same_grid", And(ex(u.affine.a) == ex(g0.affine.a), ex(u.affine.b) == ex(g0.affine.b), ex(u.affine.d) == ex(g0.affine.d), ex(u.affine.e) == ex(g0.affine.e)))
     prove("union_crs", u.crs == g0.crs)
     u2 = g1 | g0
-    prove("union_commutative", And(ex(u2.affine.c) == ex(u.affine.c), ex(u2.affine.f) == ex(u.affine.f), u2.shape.x == u.shape.x, u2.shape.y == u.shape.y))
+    if perturb:  # the result lies on the first operand's grid: equal up to the accepted offset
+        qx, qy = (~g0.affine) * (u2.affine.c, u2.affine.f)
+        px, py = (~g0.affine) * (u.affine.c, u.affine.f)
+        prove("union_commutative", And(abs(ex(qx) - ex(px)) < TOL, abs(ex(qy) - ex(py)) < TOL, u2.shape.x == u.shape.x, u2.shape.y == u.shape.y))
+    else:
+        prove("union_commutative", And(ex(u2.affine.c) == ex(u.affine.c), ex(u2.affine.f) == ex(u.affine.f), u2.shape.x == u.shape.x, u2.shape.y == u.shape.y))
 
 
-def h_intersection(base):
-    (g0, tx0, ty0, ny0, nx0), (g1, tx1, ty1, ny1, nx1) = mk_family(base, 2)
+def h_intersection(base, perturb=False):
+    (g0, tx0, ty0, ny0, nx0), (g1, tx1, ty1, ny1, nx1) = mk_family(base, 2, perturb=perturb)
     r = g0 & g1
     ox, oy = rel_origin(r, g0, (tx0, ty0))
     L, T = m_max(tx0, tx1), m_max(ty0, ty1)
@@ -166,7 +184,12 @@ def h_intersection(base):
     prove("shape_never_negative", And(r.shape.x >= 0, r.shape.y >= 0))
     prove("one_axis_empty_keeps_other", r.shape.y == h, when=And(w <= 0, h > 0))
     r2 = g1 & g0
-    prove("intersection_commutative", And(r2.shape.x == r.shape.x, r2.shape.y == r.shape.y, Or(Not(shared), And(ex(r2.affine.c) == ex(r.affine.c), ex(r2.affine.f) == ex(r.affine.f)))))
+    if perturb:
+        qx, qy = (~g0.affine) * (r2.affine.c, r2.affine.f)
+        px, py = (~g0.affine) * (r.affine.c, r.affine.f)
+        prove("intersection_commutative", And(r2.shape.x == r.shape.x, r2.shape.y == r.shape.y, Or(Not(shared), And(abs(ex(qx) - ex(px)) < TOL, abs(ex(qy) - ex(py)) < TOL))))
+    else:
+        prove("intersection_commutative", And(r2.shape.x == r.shape.x, r2.shape.y == r.shape.y, Or(Not(shared), And(ex(r2.affine.c) == ex(r.affine.c), ex(r2.affine.f) == ex(r.affine.f)))))
     # overlap_roi indexes exactly the shared pixels within the first operand
     ry, rx = g0.overlap_roi(g1)
     prove("overlap_roi_x", And(rx.start == L - tx0, rx.stop == R - tx0), when=shared)
@@ -316,7 +339,7 @@ def setup_fakegeom():
     geom.polygon = lambda outer, crs, *inners: FakeGeometry(outer, crs)
 
 
-def h_enclosing(base):
+def h_enclosing(base, region="bbox"):
     from odc.geo.geom import BoundingBox
 
     import odc.geo.geobox as gbx
@@ -324,9 +347,15 @@ def h_enclosing(base):
     A = base_affine(base)
     ny, nx = Int("ny", 1), Int("nx", 1)
     g = gbx.GeoBox((ny, nx), A, "epsg:3857")
-    l, b, w, h = Real("l"), Real("b"), Real("w"), Real("h")
-    assume(And(w >= 0, h >= 0))
-    region = BoundingBox(l, b, l + w, b + h, "epsg:3857")
+    if region == "bbox":
+        l, b, w, h = Real("l"), Real("b"), Real("w"), Real("h")
+        assume(And(w >= 0, h >= 0))
+        region = BoundingBox(l, b, l + w, b + h, "epsg:3857")
+        corners = [(l, b), (l, b + h), (l + w, b), (l + w, b + h)]
+    else:
+        # a polygon that does not fill its own bounding box (a triangle with symbolic vertices)
+        corners = [(Real(f"vx{k}"), Real(f"vy{k}")) for k in range(3)]
+        region = gbx.Geometry(corners + corners[:1], "epsg:3857")
     r = g.enclosing(region)
     prove("same_grid", And(ex(r.affine.a) == ex(A.a), ex(r.affine.b) == ex(A.b), ex(r.affine.d) == ex(A.d), ex(r.affine.e) == ex(A.e)))
     ox, oy = (~A) * (r.affine.c, r.affine.f)
@@ -336,7 +365,6 @@ def h_enclosing(base):
     else:
         prove("whole_pixel_shift", And(ox == symx.s_floor(ox), oy == symx.s_floor(oy)))
     # region corners in the pixel plane of the result
-    corners = [(l, b), (l, b + h), (l + w, b), (l + w, b + h)]
     eps = F(1, 10**6) if symx.concrete_mode() else 0
     pxs, pys = [], []
     for k, (x, y) in enumerate(corners):
@@ -420,16 +448,23 @@ OBLIGATIONS = [
        functions=("odc.geo.geobox.geobox_union_conservative", "odc.geo.geobox.bounding_box_in_pixel_domain", "odc.geo.geobox.pixel_translation"), stubs=("numpy.isclose model",), **FB),
     Ob("S2_intersection", h_intersection, tiered([dict(base=b) for b in BQ], [dict(base=b) for b in BT]), descr="& is exactly the shared pixels (normalised empty GeoBox otherwise, also when empty on one axis only); overlap_roi indexes the shared pixels in the first operand",
        functions=("odc.geo.geobox.geobox_intersection_conservative", "odc.geo.geobox.GeoBox.overlap_roi", "odc.geo.geobox.bounding_box_in_pixel_domain"), stubs=("numpy.isclose model",), **FB),
+    Ob("S2_within_tolerance", h_union, tiered([dict(base="nonsquare", perturb=True)], [dict(base=b, perturb=True) for b in BT]),
+       descr="| with the second operand off the grid by less than the accepted 1e-8 pixel (float round-off): same result as for the exact whole-pixel shift",
+       functions=("odc.geo.geobox.geobox_union_conservative", "odc.geo.geobox.bounding_box_in_pixel_domain", "odc.geo.math.is_almost_int"), stubs=("numpy.isclose model",), **FB),
+    Ob("S2_within_tolerance_and", h_intersection, tiered([dict(base="north_up", perturb="x")], [dict(base=b, perturb=True) for b in BT]),
+       descr="& and overlap_roi with the second operand off the grid by less than the accepted 1e-8 pixel: same result as for the exact whole-pixel shift",
+       functions=("odc.geo.geobox.geobox_intersection_conservative", "odc.geo.geobox.GeoBox.overlap_roi", "odc.geo.geobox.bounding_box_in_pixel_domain"), stubs=("numpy.isclose model",), **FB),
     Ob("S2_assoc", h_assoc, tiered([dict(base="north_up", op="union"), dict(base="rotated", op="intersection")], [dict(base=b, op=o) for b in BT for o in ("union", "intersection")]),
        descr="union/intersection associative over three GeoBoxes; list forms agree", functions=("odc.geo.geobox.geobox_union_conservative", "odc.geo.geobox.geobox_intersection_conservative"), **FB),
     Ob("S3_reject", h_reject, tiered([dict(base="north_up", how=h) for h in ("subpixel", "scale", "scale_near", "flip", "rotate", "crs", "crs_none")] + [dict(base="rotated", how="subpixel")],
                                       [dict(base=b, how=h) for b in BT for h in ("subpixel", "scale", "scale_near", "flip", "rotate", "crs", "crs_none")]),
        descr="sub-pixel offset beyond the tolerance, other pixel size, flipped/rotated partner, other CRS => ValueError from |, &, overlap_roi, snap_to",
        functions=("odc.geo.geobox.pixel_translation", "odc.geo.geobox.bounding_box_in_pixel_domain"), stubs=("numpy.isclose model",), **FB),
-    Ob("S4_enclosing", h_enclosing, tiered([dict(base=b) for b in ("north_up", "mirrored", "rotated")], [dict(base=b) for b in BT]),
+    Ob("S4_enclosing", h_enclosing, tiered([dict(base=b) for b in ("north_up", "mirrored", "rotated")] + [dict(base="rotated", region="triangle"), dict(base="sheared", region="triangle")],
+                                           [dict(base=b, region=r_) for b in BT for r_ in ("bbox", "triangle")]),
        descr="enclosing(region): on the source grid (whole-pixel shift), covers the region, exceeds its pixel-space box by < 1 pixel per side",
        functions=("odc.geo.geobox.GeoBox.enclosing", "odc.geo.geobox.GeoBoxBase.project", "odc.geo.geom.BoundingBox.round"), stubs=("vertex-list fake polygon",),
-       bounds="region box symbolic (w,h >= 0), same CRS", setup=setup_fakegeom, timeout_ms=20000),
+       bounds="region: symbolic box (w,h >= 0) or symbolic triangle, same CRS", setup=setup_fakegeom, timeout_ms=20000),
     Ob("S4_enclosing_nocrs", h_enclosing_nocrs, fixed(), descr="region without CRS rejected", functions=("odc.geo.geobox.GeoBox.enclosing",), setup=setup_fakegeom),
     Ob("S5_snap_to", h_snap_to, tiered([dict(base=b) for b in BQ], [dict(base=b) for b in BT]), descr="snap_to: result lies on the other grid (whole-pixel shift up to 1e-8) and moved by at most half a pixel per axis",
        functions=("odc.geo.geobox.GeoBox.snap_to", "odc.geo.math.split_translation", "odc.geo.math.maybe_zero"), **FB),
